@@ -261,6 +261,41 @@ func c19R1(c *Ctx, id string) {
 			}
 		})
 		c.check(id+":bbolt.verifyPageReachable:marks", vpr, vpr.Pos(), "every visited page (and its overflow pages) is recorded in the reachable map", marks == 1, fmt.Sprintf("%d map updates", marks))
+		// every id that is marked reachable is first tested for an earlier reference: the lookup that controls the
+		// "referenced twice" report uses the very key the map update uses (head page AND each overflow page)
+		{
+			badKey := ""
+			nMarks := 0
+			eachInstr(vpr, func(in ssa.Instruction) {
+				mu, ok := in.(*ssa.MapUpdate)
+				if !ok || !strings.Contains(mu.Map.Type().String(), "common.Page") {
+					return
+				}
+				nMarks++
+				tested := false
+				if d2 != nil {
+					for _, cond := range append(controllingConds(d2.send), func() []ssa.Value {
+						var o []ssa.Value
+						for _, cv := range controllingConds(d2.send) {
+							o = append(o, shortCircuitConds(cv)...)
+						}
+						return o
+					}()...) {
+						for _, l := range provenance(cond, provOpts{ThroughCall: throughAll}) {
+							if lk, isLk := l.V.(*ssa.Lookup); isLk && strings.Contains(lk.X.Type().String(), "common.Page") {
+								if (lk.Index == mu.Key || sameValue(lk.Index, mu.Key)) && dominates(lk, mu) {
+									tested = true
+								}
+							}
+						}
+					}
+				}
+				if !tested {
+					badKey = "an id is marked reachable at " + c.P.Position(mu.Pos()) + " without having been looked up first: a second reference to that page (e.g. through an overflow run that overlaps it) is not reported"
+				}
+			})
+			c.check(id+":bbolt.verifyPageReachable:tested-before-marked", vpr, vpr.Pos(), "each id recorded in the reachable map (the page and every overflow page) is looked up under the same key first, and a hit is reported", badKey == "" && nMarks > 0, badKey)
+		}
 		// (iii) reachable yet free
 		d3 := find(vf, func(f sendFeat) bool { return typeOf(f, "]bool") && !has(f.calls, "common.(*Page).IsBranchPage") })
 		c.check(id+":bbolt.verifyPageReachable:reachable-freed", vpr, vpr.Pos(), "a reachable page found in the `freed` map is sent to the error channel (reachable yet free)", d3 != nil, "no send is controlled by a lookup in the freed map")
